@@ -37,3 +37,34 @@ Definition c04_check (c : c04case) : bool :=
   | CIter c ops =>
       list_eqb N.eqb (run_hashes_i (c_W c) (c_H c) (case_fails c) (case_init c) ops) (c_expected c)
   end.
+
+(* ------------------------------------------------------------------ histories with iterator events (round 6) *)
+(* the logic side of [istep]: no target, terminal, MultiProgress state or fault oracle *)
+Definition ilstep (now : N) (io : iop) (ls : list logic) : list logic :=
+  match io with
+  | IOp o => lstep now o ls
+  | IterNone b => updN ls (N.to_nat b) l_iter_none
+  | IterNoneThenDrop b =>
+      updN (updN ls (N.to_nat b) l_iter_none) (N.to_nat b) (lstep_bar now (ODrop b))
+  end.
+
+Fixpoint irun (W H : N) (fails : N -> bool) (s : sys) (h : list (N * iop)) : sys * list termop :=
+  match h with
+  | [] => (s, [])
+  | (now, io) :: r =>
+      let '(s1, e, _) := istep W H fails s now io in
+      let '(s2, e2) := irun W H fails s1 r in
+      (s2, e ++ e2)
+  end.
+
+(* the logic of all bars after every event of the history *)
+Fixpoint irun_logics (W H : N) (fails : N -> bool) (s : sys) (h : list (N * iop)) : list (list logic) :=
+  match h with
+  | [] => []
+  | (now, io) :: r =>
+      let '(s1, _, _) := istep W H fails s now io in
+      bars_logic s1 :: irun_logics W H fails s1 r
+  end.
+
+Definition iclosure_writes (io : iop) : list termop :=
+  match io with IOp o => closure_writes o | _ => [] end.
